@@ -42,7 +42,7 @@ Definition name_range : var := 1%N.
 
 Definition line_of (s : stmt) : N :=
   match s with
-  | SAssign l _ _ | SAug l _ _ _ | SPrint l _ | SIf l _ _ _ | SWhile l _ _ | SFor l _ _ _
+  | SAssign l _ _ | SAug l _ _ _ | SPrint l _ | SIf l _ _ _ | SWhile l _ _ _ | SFor l _ _ _ _
   | SReturn l _ | SPass l | SBreak l | SContinue l | SCall l _ _ _ _ _ => l
   end.
 
@@ -155,18 +155,23 @@ Section Collect.
                        end in
         let s3 := nest_exit sibling (fold_left (fun acc x => visit_s x acc) b (nest_enter sibling s2)) in
         cond_exit prev (nest_exit after s3)
-    | SWhile l c b =>                                                        (* _While *)
+    | SWhile l c b e =>                       (* _While: loop context, then _handle_conditional_node: test, body, orelse *)
         let prev := cond s in
         let after := N.ltb hi l in
         let s1 := nest_enter after (cond_enter l (loop_enter l s)) in
         let s2 := fold_left (fun acc x => visit_s x acc) b (visit_e l c s1) in
-        loop_exit l (cond_exit prev (nest_exit after s2))
-    | SFor l x e b =>                                                        (* _For: iter, target, body *)
+        let sibling := match e with
+                       | [] => false
+                       | f :: _ => N.ltb l lo && N.ltb hi (line_of f)
+                       end in
+        let s3 := nest_exit sibling (fold_left (fun acc x => visit_s x acc) e (nest_enter sibling s2)) in
+        loop_exit l (cond_exit prev (nest_exit after s3))
+    | SFor l x e b els =>                                                    (* _For: iter, target, body, orelse *)
         let prev := cond s in
         let after := N.ltb hi l in
         let s1 := nest_enter after (cond_enter l (loop_enter l s)) in
         let s2 := written_var x l (visit_e l e (read_var name_range l s1)) in
-        let s3 := fold_left (fun acc x => visit_s x acc) b s2 in
+        let s3 := fold_left (fun acc x => visit_s x acc) els (fold_left (fun acc x => visit_s x acc) b s2) in
         loop_exit l (cond_exit prev (nest_exit after s3))
     | SCall l rets args _ _ _ =>                                             (* not in hosts *)
         fold_left (fun acc x => written_var x l acc) rets (fold_left (fun acc x => read_var x l acc) args s)
@@ -191,7 +196,7 @@ Fixpoint last_line_s (s : stmt) : N :=
     end in
   match s with
   | SIf l _ a b => last_line_b b (last_line_b a l)
-  | SWhile l _ b | SFor l _ _ b => last_line_b b l
+  | SWhile l _ b e | SFor l _ _ b e => last_line_b e (last_line_b b l)
   | s => line_of s
   end.
 Definition first_line (R : list stmt) : N := match R with [] => 0%N | s :: _ => line_of s end.
